@@ -198,6 +198,55 @@ func (g *Gen) Object(depth int, defs []string, typed bool) *Schema {
 	return x
 }
 
+// validDefault returns a default that satisfies the schema's own constraints, or none.
+func (g *Gen) validDefault(x *Simple) DVal {
+	if x.Format != "" || x.V.Pattern != "" {
+		return DVal{}
+	}
+	if len(x.V.Enum) > 0 {
+		e := x.V.Enum[g.R.Intn(len(x.V.Enum))]
+		switch e.Kind {
+		case 0:
+			return DVal{Kind: 1, S: e.S}
+		case 1:
+			return DVal{Kind: 2, I: e.I}
+		}
+		return DVal{}
+	}
+	switch x.Type {
+	case "string":
+		for tries := 0; tries < 6; tries++ {
+			w := g.R.Pick([]string{"alpha", "beta", "a b", "0", "true", "abcdefghi", "ab"})
+			n := int64(len(w))
+			if (x.V.MinLen == nil || n >= *x.V.MinLen) && (x.V.MaxLen == nil || n <= *x.V.MaxLen) {
+				return DVal{Kind: 1, S: w}
+			}
+		}
+		return DVal{}
+	case "integer", "number":
+		lo, hi := int64(-3), int64(9)
+		if x.V.Min != nil {
+			lo = *x.V.Min
+			if x.V.XMin {
+				lo++
+			}
+		}
+		if x.V.Max != nil {
+			hi = *x.V.Max
+			if x.V.XMax {
+				hi--
+			}
+		}
+		if hi < lo {
+			return DVal{}
+		}
+		return DVal{Kind: 2, I: lo + int64(g.R.Intn(int(hi-lo+1)))}
+	case "boolean":
+		return DVal{Kind: 3, B: g.R.Chance(1, 2)}
+	}
+	return DVal{}
+}
+
 func (g *Gen) scalarDefault(typ string) DVal {
 	switch typ {
 	case "string":
@@ -224,19 +273,27 @@ func (g *Gen) Simple(depth int, isItems bool) Simple {
 		if g.R.Chance(1, 2) {
 			x.CFmt = g.R.Pick([]string{"csv", "ssv", "tsv", "pipes"})
 		}
-		if g.R.Chance(1, 4) {
+		if g.R.Chance(1, 4) && it.Type != "array" {
 			n := g.R.Intn(3)
-			d := DVal{Kind: 4, L: []DVal{}}
-			for i := 0; i < n; i++ {
-				d.L = append(d.L, g.scalarDefault(it.Type))
+			if x.V.MinItems != nil && int64(n) < *x.V.MinItems {
+				n = int(*x.V.MinItems)
 			}
-			if it.Type != "array" {
+			d := DVal{Kind: 4, L: []DVal{}}
+			ok := true
+			for i := 0; i < n; i++ {
+				e := g.validDefault(&it)
+				if e.Kind == 0 {
+					ok = false
+				}
+				d.L = append(d.L, e)
+			}
+			if ok && (x.V.MaxItems == nil || int64(n) <= *x.V.MaxItems) {
 				x.Default = d
 				g.hit("simple:array-default")
 			}
 		}
 	} else if g.R.Chance(1, 4) {
-		x.Default = g.scalarDefault(typ)
+		x.Default = g.validDefault(&x)
 	}
 	if g.Lenient && g.R.Chance(1, 6) {
 		x.Example = g.scalarDefault(g.R.Pick([]string{"string", "integer", "boolean"}))
@@ -382,6 +439,24 @@ func (g *Gen) Spec() *Spec {
 		sp.Defs = append(sp.Defs, Def{Name: n, Schema: sc})
 	}
 	g.RestrictAllOf = false
+	nested := g.R.Chance(1, 3)
+	if nested {
+		// Outer -> Inner through a plain property and through array items; Inner carries constraints
+		g.hit("def:nested-refs")
+		inner := &Schema{Type: []string{"object"}, Props: []Prop{
+			{Name: "sku", Schema: &Schema{Type: []string{"string"}, V: g.valsFor("string")}},
+			{Name: "qty", Schema: &Schema{Type: []string{"integer"}, V: g.valsFor("integer")}}}}
+		if g.R.Chance(1, 2) {
+			inner.Required = []string{"sku"}
+		}
+		outer := &Schema{Type: []string{"object"}, Props: []Prop{{Name: "note", Schema: &Schema{Type: []string{"string"}}}}}
+		if g.R.Chance(1, 2) {
+			outer.Props = append(outer.Props, Prop{Name: "main", Schema: &Schema{Ref: "Inner"}})
+		} else {
+			outer.Props = append(outer.Props, Prop{Name: "lines", Schema: &Schema{Type: []string{"array"}, Items: &Schema{Ref: "Inner"}}})
+		}
+		sp.Defs = append(sp.Defs, Def{Name: "Inner", Schema: inner}, Def{Name: "Outer", Schema: outer})
+	}
 	if g.R.Chance(1, 2) {
 		sp.HasConsumes = true
 		sp.Consumes = g.subset(mimes)
@@ -433,6 +508,20 @@ func (g *Gen) Spec() *Spec {
 			pi.Ops = append(pi.Ops, g.operation(m, u, hasID, pathLevelID, names))
 		}
 		sp.Paths = append(sp.Paths, pi)
+	}
+	if nested {
+		op := sp.Paths[0].Ops[0]
+		if g.R.Chance(1, 2) || op.Method == "get" || op.Method == "delete" || op.Method == "head" {
+			op.Responses[0].Schema = &Schema{Ref: "Outer"}
+		} else {
+			var ps []*Param
+			for _, p := range op.Params {
+				if p.In != "body" && p.In != "formData" {
+					ps = append(ps, p)
+				}
+			}
+			op.Params = append(ps, &Param{Name: "body", In: "body", Required: true, Schema: &Schema{Ref: "Outer"}})
+		}
 	}
 	return sp
 }
